@@ -101,7 +101,10 @@ tally_cases = st.fixed_dictionaries({
 
 @st.composite
 def flow_cases(draw):
-    scn = draw(gen.scenarios(min_jobs=1, max_jobs=6, max_groups=2))
+    scn = draw(st.one_of(gen.scenarios(min_jobs=1, max_jobs=6, max_groups=2), gen.scenarios(min_jobs=1, max_jobs=6, max_groups=2),
+                         gen.scenarios(min_jobs=1, max_jobs=6, max_groups=2),
+                         # local mode: the runner works inside the submit-jobs process
+                         gen.scenarios(min_jobs=1, max_jobs=6, max_groups=1, mode="local")))
     # node-level resource monitoring with the real psutil-backed monitor: 'periodic' logs cpu/memory events (kept as
     # Parquet files in the summary), 'aggregation' keeps running statistics
     scn["monitor"] = draw(st.sampled_from(["none", "none", "periodic", "aggregation"]))
@@ -485,14 +488,14 @@ def run_flow(case, res):
                     return ww.steps >= at and os.path.exists(os.path.join(sim.out, "submitter_groups.json"))
 
                 def fire(ww, cmd=u["cmd"]):
-                    if not sim.is_complete():
+                    if not sim.is_complete() and scn["mode"] == "hpc":
                         sim.user_cmd(["try-submit-jobs", sim.out] if cmd == "try" else ["show-status", "-o", sim.out, "-n"])
 
                 w.user_events.append((u["cmd"], pred, fire, True))
             sim.submit()
             outcome = sim.drive()
             w.user_events.clear()
-            if outcome == "complete" and case["resubmit"]:
+            if outcome == "complete" and case["resubmit"] and scn["mode"] == "hpc":
                 sim.user_cmd(["resubmit-jobs", sim.out, "--successful"], name="resubmit")
                 sim.recovery_rounds = 0
                 outcome = sim.drive()
@@ -504,6 +507,28 @@ def run_flow(case, res):
             files = set()
             late = {}
             never_merged = []
+            if scn["mode"] == "local":
+                res["classes"].append("flow_local_mode")
+            # an event handed to the event logger by a process that has event logging set up (it wrote a record before)
+            # reaches an event file: nothing is dropped between log_event() and the file
+            first_written = {}
+            texts_by_proc = {}
+            for fname, text, by, seq in w.events_written:
+                first_written.setdefault(by, seq)
+                texts_by_proc.setdefault(by, []).append(text)
+            dropped = []
+            for text, by, seq, nh in w.events_logged:
+                if by in first_written and seq > first_written[by]:
+                    pool = texts_by_proc[by]
+                    if text in pool:
+                        pool.remove(text)
+                    else:
+                        dropped.append((by, text[:160], nh))
+            if dropped:
+                by, text, nh = dropped[0]
+                v.append(D.viol(f"C20:event-dropped-before-reaching-a-file|writer={by.split(':')[-1]}",
+                                f"{len(dropped)} event(s) handed to the event logger never reached an event file, e.g. by {by} "
+                                f"(logger had {nh} handler(s)): {text}"))
             # reads of node / submitter event files = consolidations (reads of job-outputs/*/events.log are node-level merges)
             node_reads = [r for r in w.event_file_reads if "/job-outputs/" not in r[0]]
             for fname, text, by, seq in w.events_written:
